@@ -25,7 +25,7 @@ class Similarity:
         else:
             theta = rng.uniform(0, 2 * math.pi)
         scale = 10 ** rng.uniform(-3, 3) if big else 10 ** rng.uniform(-1, 1)
-        t = (1e4 if big else 10.0) * scale * 10
+        t = (1e4 if big else 10.0) * scale
         return cls(theta, scale, rng.uniform(-t, t), rng.uniform(-t, t), reflect=rng.random() < 0.3)
 
     def apply(self, p):
@@ -54,7 +54,8 @@ def base_edges(cells):
     return out, seen
 
 
-def instance_desc(base_pos, cells, k, sim=None, id_offset=0, id_stride=1, bulge=None, shuffle_rng=None):
+def instance_desc(base_pos, cells, k, sim=None, id_offset=0, id_stride=1, bulge=None, shuffle_rng=None,
+                  interior_pts=None, cell_order=None):
     """Mesh description for harness.build.build_mesh.
 
     base_pos: {base vertex id: (x, y)} model coordinates; cells: list of base-vertex cycles;
@@ -70,6 +71,14 @@ def instance_desc(base_pos, cells, k, sim=None, id_offset=0, id_stride=1, bulge=
     for (a, b) in edges:
         pts = []
         pa, pb = np.array(base_pos[a], float), np.array(base_pos[b], float)
+        if interior_pts is not None:
+            for p in interior_pts[(a, b)]:
+                vid = nxt
+                nxt += id_stride
+                model[vid] = (float(p[0]), float(p[1]))
+                pts.append(vid)
+            interior[(a, b)] = pts
+            continue
         for j in range(1, k + 1):
             t = j / (k + 1)
             if bulge and bulge.get((a, b)):
